@@ -136,6 +136,43 @@ def frames_event(s, n, rng):
     s._ev({"a": "Frames", "n": n, "out": out, "ks": ks if out == "ok" else []})
 
 
+def creator_frames_events(s, rng, n1, n2, video=False):
+    """GanttChartCreator on one dispatcher over two episodes: the animation made after
+    the second episode must show the second episode's history."""
+    import imageio
+    from job_shop_lib.visualization import GanttChartCreator
+    inst = [[{"ms": [rng.randint(1, 2)], "d": rng.randint(1, 3)} for _ in range(3)] for _ in range(4)]
+    instance = model.build_instance(inst, name="creator")
+    d = model.make_dispatcher(instance, [])
+    tmp = tempfile.mkdtemp(prefix="verif_c20c_", dir=str(_workdir()))
+    path = os.path.join(tmp, "a.mp4" if video else "a.gif")
+    cfg = {"video_path": path, "fps": 10} if video else {"gif_path": path, "fps": 50}
+    try:
+        out0, creator = _outcome(lambda: GanttChartCreator(d, **({"video_config": cfg} if video else {"gif_config": cfg})))
+        if out0 != "ok":
+            s._ev({"a": "Frames", "n": n2, "out": out0, "ks": []})
+            return
+        creator.partial_gantt_chart_plotter = _band_plotter
+        for n in (n1, n2):
+            nxt = [0] * len(inst)
+            for _ in range(n):
+                j = rng.choice([x for x in range(len(inst)) if nxt[x] < len(inst[x])])
+                d.dispatch(instance.jobs[j][nxt[j]])
+                nxt[j] += 1
+
+            def go():
+                (creator.create_video if video else creator.create_gif)()
+                if video:
+                    return [_decode(f) for f in imageio.mimread(path, memtest=False)]
+                return [_decode(f) for f in imageio.mimread(path, memtest=False)]
+
+            out, ks = _outcome(go)
+            s._ev({"a": "Frames", "n": n, "out": out, "ks": ks if out == "ok" else [], "via": "video" if video else "gif"})
+            d.reset()
+    finally:
+        shutil.rmtree(tmp, ignore_errors=True)
+
+
 def _workdir():
     from .common import WORK
     WORK.mkdir(exist_ok=True)
@@ -178,7 +215,12 @@ def c20():
         s = dsession.DSession(n0 + k + 1, [[{"ms": [1], "d": 1}]], [], ())
         frames_event(s, n, rng)
         traces.append(s.trace())
-    chk.monitor(traces, source="real-gif-pipeline-decoded", case_key=lambda t: t["events"][-1].get("n"))
+    s = dsession.DSession(n0 + len(sizes) + 1, [[{"ms": [1], "d": 1}]], [], ())
+    creator_frames_events(s, rng, 7, 4)
+    creator_frames_events(s, rng, 3, 9)
+    creator_frames_events(s, rng, 5, 6, video=True)
+    traces.append(s.trace())
+    chk.monitor(traces, source="real-gif-pipeline-decoded", case_key=lambda t: (t["tid"], t["events"][-1].get("n")))
     chk.assumptions.append("matplotlib's rendering is a black box: bars are read back from the Axes' collections, "
                            "frames are identified by a band pattern drawn by a custom plot function")
     return chk.finish(
